@@ -31,7 +31,10 @@ def close_case(draw, tier="quick"):
             "side": draw(st.integers(0, 1)),
             "k_other": draw(st.one_of(st.none(), st.none(), kk)),
             "again": draw(st.sampled_from([None, None, 0, 5, 200])),
-            "yields": draw(st.integers(0, 3))}
+            "yields": draw(st.integers(0, 3)),
+            # things an application may do on the way: stop one transceiver, start a second negotiation round
+            "extras": draw(st.lists(st.tuples(st.sampled_from(["stop-transceiver", "reoffer", "reoffer", "peer-goes-away"]), st.integers(1, 6), st.integers(0, 1)).map(list),
+                                    max_size=2))}
 
 
 class Scenario:
@@ -122,16 +125,44 @@ class Scenario:
         level = PREFIXES.index(prefix) if prefix in PREFIXES else 4
         for _ in range(case.get("yields", 0)):
             await asyncio.sleep(0)
+
+        async def extras(at: int) -> None:
+            for ex in case.get("extras", []):
+                if not (isinstance(ex, list) and len(ex) == 3) or ex[1] != at:
+                    continue
+                pc = self.pcs[ex[2] % 2]
+                if ex[0] == "stop-transceiver":
+                    trs = pc.getTransceivers()
+                    if trs:
+                        self.classes.add("transceiver-stopped")
+                        await self.call("transceiver.stop", trs[0].stop)
+                elif ex[0] == "peer-goes-away" and at >= 4:
+                    # the other side closes (it keeps its descriptions, so the exchange can still be completed against it)
+                    self.classes.add("peer-goes-away")
+                    self.inject(1, loop)
+                    await asyncio.sleep(0)
+                elif ex[0] == "reoffer" and (at >= 5 or pc is self.pcs[0]) and pc.signalingState in ("stable", "have-local-offer") \
+                        and self.pcs.index(pc) not in self.close_tasks:
+                    self.classes.add("reoffer")
+                    o2 = await self.call("createOffer", pc.createOffer)
+                    await self.call("setLocalDescription(offer)", lambda: pc.setLocalDescription(o2))
+
         if level >= 1:
             offer = await self.call("createOffer", a.createOffer)
+            await extras(1)
         if level >= 2:
             await self.call("setLocalDescription(offer)", lambda: a.setLocalDescription(offer))
+            await extras(2)
         if level >= 3:
             await self.call("setRemoteDescription(offer)", lambda: b.setRemoteDescription(a.localDescription))
+            await extras(3)
         if level >= 4:
             answer = await self.call("createAnswer", b.createAnswer)
             await self.call("setLocalDescription(answer)", lambda: b.setLocalDescription(answer))
-            await self.call("setRemoteDescription(answer)", lambda: a.setRemoteDescription(b.localDescription))
+            answer_applied = b.localDescription
+            await extras(4)
+            await self.call("setRemoteDescription(answer)", lambda: a.setRemoteDescription(answer_applied))
+            await extras(5)
         if level >= 5:
             await wait_for(lambda: all(pc.connectionState in ("connected", "failed", "closed") for pc in self.pcs), timeout=20)
             for side in (0, 1):
@@ -139,6 +170,7 @@ class Scenario:
                     if ch.readyState == "open":
                         ch.send("hello")
             await asyncio.sleep(0.3)
+            await extras(6)
         if level >= 6:
             self.inject(1, loop)
             await asyncio.sleep(1.0)
